@@ -8,7 +8,8 @@ from concurrent.futures import ThreadPoolExecutor
 NW, OUT = int(sys.argv[1]), sys.argv[2]
 FILT = re.compile(sys.argv[3]) if len(sys.argv) > 3 else re.compile(".")
 TIER = sys.argv[4] if len(sys.argv) > 4 else "quick"
-ROOT = "/tmp/ss"
+SRC = os.environ.get("VERIF_SRC", "/verif")   # the /verif tree to copy (a worktree of it when testing uncommitted work)
+ROOT = os.environ.get("SEEDSWEEP_ROOT", "/tmp/ss")
 
 def env_for(base):
     e = dict(os.environ, GOFLAGS="-mod=mod", GOPROXY="off", VERIF_REPO=base + "/repo", VERIF_EVIDENCE_DIR=base + "/ev",
@@ -30,7 +31,7 @@ def setup(w):
     os.makedirs(base)
     e = env_for(base)
     sh("git clone -q /repo %s/repo" % base, "/", e)
-    sh("rsync -a --exclude .git --exclude build/run --exclude replays --exclude seeded /verif/ %s/verif/" % base, "/", e)
+    sh("rsync -a --exclude .git --exclude build/run --exclude replays --exclude seeded %s/ %s/verif/" % (SRC, base), "/", e)
     gm = open(base + "/verif/harness/go.mod").read().replace("=> /repo", "=> " + base + "/repo")
     open(base + "/verif/harness/go.mod", "w").write(gm)
     return base
